@@ -9,8 +9,8 @@ filter type — or the wildcard subject itself).
 negative information about `u`.
 
   * `expand_exact2`   invariant of every response of `Expand`: `covers` ⇒ definitely holds (relative to
-                      the path), possibly holds ⇒ `covers`, and the same from the global semantics when
-                      nothing below was cut;
+                      the path), possibly holds relative to `W` ⇒ `covers`, for every part `W` of the path
+                      that contains the sub-problems at which the cycle guard actually cut the expansion;
   * `lu_exact2`       for the answer: a returned `u` definitely holds the relation; a `u` that possibly
                       holds it is returned explicitly or the wildcard is returned.
 
@@ -24,7 +24,7 @@ namespace OpenFGAVerif.ListUsers
 open OpenFGAVerif.BoolSys
 
 section
-variable {N K : Type} [DecidableEq K]
+variable {N K : Type} [DecidableEq N] [DecidableEq K]
 
 inductive Stage2E (sys : LSys N K) : LExpr N K → Prop
   | send (ks : List K) : (∀ k ∈ ks, sys.isWild k = true → k = sys.wk) → Stage2E sys (.send ks)
@@ -43,7 +43,7 @@ def ChanInv (wk : K) (isWild : K → Bool) (l : List (Found K)) : Prop :=
   ∀ f ∈ l, (isWild f.user = true → f.user = wk) ∧ (f.user = wk → f.status = .has) ∧
     (∀ k ∈ f.excluded, isWild k = false)
 
-theorem chanInv_flat {wk : K} {isWild : K → Bool} {rs : List (Resp K)}
+theorem chanInv_flat {wk : K} {isWild : K → Bool} {rs : List (Resp N K)}
     (h : ∀ r ∈ rs, ChanInv wk isWild r.found) : ChanInv wk isWild (rs.flatMap (·.found)) := by
   intro f hf
   obtain ⟨r, hr, hfr⟩ := List.mem_flatMap.mp hf
@@ -167,12 +167,12 @@ theorem covers_send {wk : K} {ks : List K} {u : K} :
 variable (sys : LSys N K) (limit : Nat) (u : K) (I : Interp N)
 
 theorem expand_exact2 (hst : Stage2 sys) (hc : Coherent (specSys sys u true) I) :
-    ∀ {d : Nat} {V : List N} {e : LExpr N K} {r : Resp K}, Expand sys limit d V e r →
+    ∀ {d : Nat} {V : List N} {e : LExpr N K} {r : Resp N K}, Expand sys limit d V e r →
       Stage2E sys e → r.errs = [] → r.notes = [] →
       ChanInv sys.wk sys.isWild r.found ∧
       (covers sys.wk r.found u = true → HoldsD (specSys sys u true) I V (proj sys.wk u true e)) ∧
-      (HoldsP (specSys sys u true) I V (proj sys.wk u true e) → covers sys.wk r.found u = true) ∧
-      (r.cut = false → HoldsP (specSys sys u true) I [] (proj sys.wk u true e) → covers sys.wk r.found u = true) := by
+      (∀ W : List N, (∀ x ∈ W, x ∈ V) → (∀ x ∈ r.cutAt, x ∈ V → x ∈ W) →
+        HoldsP (specSys sys u true) I W (proj sys.wk u true e) → covers sys.wk r.found u = true) := by
   intro d V e r h
   induction h with
   | abort e => intro _ he _; simp [abortResp] at he
@@ -195,7 +195,7 @@ theorem expand_exact2 (hst : Stage2 sys) (hc : Coherent (specSys sys u true) I) 
               simp only [not_or] at hu
               simp [hu.1, hu.2]
             rw [h2]; rfl
-      refine ⟨?_, ?_, ?_, ?_⟩
+      refine ⟨?_, ?_, ?_⟩
       · intro f hf
         simp only [sendResp, List.mem_map] at hf
         obtain ⟨k, hk, rfl⟩ := hf
@@ -207,24 +207,23 @@ theorem expand_exact2 (hst : Stage2 sys) (hc : Coherent (specSys sys u true) I) 
           rcases this with h | h <;> simp [h]
         rw [h2]
         exact .lit rfl
-      · intro hp; exact covers_send.mpr (hleaf (fun v hv => hv) hp)
-      · intro _ hp; exact covers_send.mpr (hleaf (fun v hv => hv) hp)
+      · intro W _ _ hp; exact covers_send.mpr (hleaf (fun v hv => hv) hp)
   | fail => intro _ he _; simp [failResp] at he
   | note s => intro _ _ hn; simp [noteResp] at hn
   | node_depth n _ => intro _ he _; simp [depthResp] at he
   | @node_cycle d V n _ hm =>
     intro _ _ _
-    refine ⟨fun f hf => by simp [cycleResp] at hf, ?_, ?_, ?_⟩
+    refine ⟨fun f hf => by simp [cycleResp] at hf, ?_, ?_⟩
     · intro hh; simp [cycleResp, covers, hasK] at hh
-    · intro hp
+    · intro W _ hcutW hp
       simp only [proj] at hp
+      have hnW : n ∈ W := hcutW n (by simp [cycleResp]) hm
       cases hp with
-      | node hn => exact absurd hm (lfp_unfold _ _ _ V n hn).1
-    · intro hcut; simp [cycleResp] at hcut
+      | node hn => exact absurd hnW (lfp_unfold _ _ _ W n hn).1
   | @node_eval d V n r _ hm _ ih =>
     intro _ he hn
-    obtain ⟨h1, h2, h3, h4⟩ := ih (hst.2 n) he hn
-    refine ⟨h1, ?_, ?_, ?_⟩
+    obtain ⟨h1, h2, h3⟩ := ih (hst.2 n) he hn
+    refine ⟨h1, ?_, ?_⟩
     · intro hh
       have hD := h2 hh
       simp only [proj]
@@ -232,17 +231,19 @@ theorem expand_exact2 (hst : Stage2 sys) (hc : Coherent (specSys sys u true) I) 
       apply lfp_closed _ _ _ V n hm
       exact Holds.mono leafD I.negD
         (lfp_antitone (specSys sys u true) leafD I.negD (fun x hx => List.mem_cons_of_mem n hx)) hD
-    · intro hp
-      simp only [proj] at hp
-      cases hp with
-      | node hnP => exact h3 (lfp_path (specSys sys u true) leafP I.negP V n hnP)
-    · intro hcut hp
+    · intro W hWV hcutW hp
       simp only [proj] at hp
       cases hp with
       | node hnP =>
-        have := lfp_path (specSys sys u true) leafP I.negP [] n hnP
-        exact h4 hcut (Holds.mono leafP I.negP
-          (lfp_antitone (specSys sys u true) leafP I.negP (fun x hx => absurd hx List.not_mem_nil)) this)
+        refine h3 (n :: W) ?_ ?_ (lfp_path (specSys sys u true) leafP I.negP W n hnP)
+        · intro x hx
+          rcases List.mem_cons.mp hx with rfl | hx
+          · exact List.mem_cons_self
+          · exact List.mem_cons_of_mem _ (hWV x hx)
+        · intro x hxc hx
+          rcases List.mem_cons.mp hx with rfl | hx
+          · exact List.mem_cons_self
+          · exact List.mem_cons_of_mem _ (hcutW x hxc hx)
   | @bag d V keep es rs hlen _ ih =>
     intro hs he hn
     cases hs with
@@ -256,7 +257,7 @@ theorem expand_exact2 (hst : Stage2 sys) (hc : Coherent (specSys sys u true) I) 
         rw [List.flatMap_map]; rfl
       have hcov := @covers_bag K _ sys.wk (rs.map (·.found)) u
       rw [← hflat] at hcov
-      refine ⟨?_, ?_, ?_, ?_⟩
+      refine ⟨?_, ?_, ?_⟩
       · apply chanInv_flat
         intro r' hr'
         obtain ⟨i, h2, rfl⟩ := List.getElem_of_mem hr'
@@ -267,25 +268,14 @@ theorem expand_exact2 (hst : Stage2 sys) (hc : Coherent (specSys sys u true) I) 
         obtain ⟨i, h2, rfl⟩ := List.getElem_of_mem hr'
         simp only [proj]
         exact .or (List.mem_map.mpr ⟨es[i]'(hlen ▸ h2), List.getElem_mem _, rfl⟩) ((hi i (hlen ▸ h2) h2).2.1 hhr)
-      · intro hp
+      · intro W hWV hcutW hp
         simp only [proj] at hp
         cases hp with
         | or hmem hhold =>
           obtain ⟨e', he', rfl⟩ := List.mem_map.mp hmem
           obtain ⟨i, h1, rfl⟩ := List.getElem_of_mem he'
           exact hcov.2 hbn ⟨_, List.mem_map.mpr ⟨rs[i]'(hlen ▸ h1), List.getElem_mem _, rfl⟩,
-            (hi i h1 (hlen ▸ h1)).2.2.1 hhold⟩
-      · intro hcut hp
-        simp only [proj] at hp
-        cases hp with
-        | or hmem hhold =>
-          obtain ⟨e', he', rfl⟩ := List.mem_map.mp hmem
-          obtain ⟨i, h1, rfl⟩ := List.getElem_of_mem he'
-          have hc' : (rs[i]'(hlen ▸ h1)).cut = false := by
-            have := List.any_eq_false.mp hcut (rs[i]'(hlen ▸ h1)) (List.getElem_mem _)
-            simpa using this
-          exact hcov.2 hbn ⟨_, List.mem_map.mpr ⟨rs[i]'(hlen ▸ h1), List.getElem_mem _, rfl⟩,
-            (hi i h1 (hlen ▸ h1)).2.2.2 hc' hhold⟩
+            (hi i h1 (hlen ▸ h1)).2.2 W hWV (cutAt_child hcutW (List.getElem_mem _)) hhold⟩
   | @union d V es rs hlen _ ih =>
     intro hs he hn
     cases hs with
@@ -296,7 +286,7 @@ theorem expand_exact2 (hst : Stage2 sys) (hc : Coherent (specSys sys u true) I) 
       have hi : ∀ i (h1 : i < es.length) (h2 : i < rs.length), _ := fun i h1 h2 =>
         ih i h1 h2 (hes _ (List.getElem_mem h1)) (hclean _ (List.getElem_mem h2)).1 (hclean _ (List.getElem_mem h2)).2
       have hcov := @covers_unionR K _ sys.wk (rs.map (·.found)) hun u
-      refine ⟨?_, ?_, ?_, ?_⟩
+      refine ⟨?_, ?_, ?_⟩
       · apply chanInv_unionR
         intro ch hch
         obtain ⟨r', hr', rfl⟩ := List.mem_map.mp hch
@@ -308,25 +298,14 @@ theorem expand_exact2 (hst : Stage2 sys) (hc : Coherent (specSys sys u true) I) 
         obtain ⟨i, h2, rfl⟩ := List.getElem_of_mem hr'
         simp only [proj]
         exact .or (List.mem_map.mpr ⟨es[i]'(hlen ▸ h2), List.getElem_mem _, rfl⟩) ((hi i (hlen ▸ h2) h2).2.1 hhr)
-      · intro hp
+      · intro W hWV hcutW hp
         simp only [proj] at hp
         cases hp with
         | or hmem hhold =>
           obtain ⟨e', he', rfl⟩ := List.mem_map.mp hmem
           obtain ⟨i, h1, rfl⟩ := List.getElem_of_mem he'
           exact hcov.mpr ⟨_, List.mem_map.mpr ⟨rs[i]'(hlen ▸ h1), List.getElem_mem _, rfl⟩,
-            (hi i h1 (hlen ▸ h1)).2.2.1 hhold⟩
-      · intro hcut hp
-        simp only [proj] at hp
-        cases hp with
-        | or hmem hhold =>
-          obtain ⟨e', he', rfl⟩ := List.mem_map.mp hmem
-          obtain ⟨i, h1, rfl⟩ := List.getElem_of_mem he'
-          have hc' : (rs[i]'(hlen ▸ h1)).cut = false := by
-            have := List.any_eq_false.mp hcut (rs[i]'(hlen ▸ h1)) (List.getElem_mem _)
-            simpa using this
-          exact hcov.mpr ⟨_, List.mem_map.mpr ⟨rs[i]'(hlen ▸ h1), List.getElem_mem _, rfl⟩,
-            (hi i h1 (hlen ▸ h1)).2.2.2 hc' hhold⟩
+            (hi i h1 (hlen ▸ h1)).2.2 W hWV (cutAt_child hcutW (List.getElem_mem _)) hhold⟩
   | @inter d V es rs hlen _ ih =>
     intro hs he hn
     cases hs with
@@ -354,7 +333,7 @@ theorem expand_exact2 (hst : Stage2 sys) (hc : Coherent (specSys sys u true) I) 
         have := (hinv ch hch f hf).2.2 _ hk
         rw [hst.1] at this; cases this
       have hcov := @covers_interR K _ sys.wk (rs.map (·.found)) hne' hwk hin u
-      refine ⟨chanInv_interR hinv, ?_, ?_, ?_⟩
+      refine ⟨chanInv_interR hinv, ?_, ?_⟩
       · intro hh
         have hall := hcov.mp hh
         simp only [proj]
@@ -364,7 +343,7 @@ theorem expand_exact2 (hst : Stage2 sys) (hc : Coherent (specSys sys u true) I) 
         obtain ⟨i, h1, rfl⟩ := List.getElem_of_mem he0
         exact (hi i h1 (hlen ▸ h1)).2.1
           (hall _ (List.mem_map.mpr ⟨rs[i]'(hlen ▸ h1), List.getElem_mem _, rfl⟩))
-      · intro hp
+      · intro W hWV hcutW hp
         simp only [proj] at hp
         cases hp with
         | and hall =>
@@ -372,20 +351,7 @@ theorem expand_exact2 (hst : Stage2 sys) (hc : Coherent (specSys sys u true) I) 
           intro ch hch
           obtain ⟨r', hr', rfl⟩ := List.mem_map.mp hch
           obtain ⟨i, h2, rfl⟩ := List.getElem_of_mem hr'
-          exact (hi i (hlen ▸ h2) h2).2.2.1
-            (hall _ (List.mem_map.mpr ⟨es[i]'(hlen ▸ h2), List.getElem_mem _, rfl⟩))
-      · intro hcut hp
-        simp only [proj] at hp
-        cases hp with
-        | and hall =>
-          apply hcov.mpr
-          intro ch hch
-          obtain ⟨r', hr', rfl⟩ := List.mem_map.mp hch
-          obtain ⟨i, h2, rfl⟩ := List.getElem_of_mem hr'
-          have hc' : (rs[i]'h2).cut = false := by
-            have := List.any_eq_false.mp hcut (rs[i]'h2) (List.getElem_mem _)
-            simpa using this
-          exact (hi i (hlen ▸ h2) h2).2.2.2 hc'
+          exact (hi i (hlen ▸ h2) h2).2.2 W hWV (cutAt_child hcutW (List.getElem_mem _))
             (hall _ (List.mem_map.mpr ⟨es[i]'(hlen ▸ h2), List.getElem_mem _, rfl⟩))
   | diff_cycle b s rb rs _ _ _ _ _ =>
     intro _ _ hn
@@ -403,11 +369,15 @@ theorem expand_exact2 (hst : Stage2 sys) (hc : Coherent (specSys sys u true) I) 
       obtain ⟨hn3, hclS⟩ := List.append_eq_nil_iff.mp hn2
       obtain ⟨hn4, hclB⟩ := List.append_eq_nil_iff.mp hn3
       obtain ⟨hnb, hns⟩ := List.append_eq_nil_iff.mp hn4
-      have hscut : rs.cut = false := noteIf_nil hcutn
+      have hscut : ∀ x ∈ rs.cutAt, x ∉ V := by
+        have h0 := noteIf_nil hcutn
+        intro x hx hxV
+        have := List.any_eq_false.mp h0 x hx
+        simp [hxV] at this
       have hclashB : clash rb.found = false := noteIf_nil hclB
       have hclashS : clash rs.found = false := noteIf_nil hclS
-      obtain ⟨ib, ab, bb, cb⟩ := ihb hsb heb hnb
-      obtain ⟨is, as, _, cs⟩ := ihs hss hes hns
+      obtain ⟨ib, ab, bb⟩ := ihb hsb heb hnb
+      obtain ⟨is, as, cs⟩ := ihs hss hes hns
       have hunB := unread_nil hurB
       have hunS := unread_nil hurS
       have mib := mapInv_of hbm ib
@@ -419,7 +389,7 @@ theorem expand_exact2 (hst : Stage2 sys) (hc : Coherent (specSys sys u true) I) 
         intro hnot
         apply (hc _).1.mpr
         intro hp
-        have := cs hscut hp
+        have := cs [] (fun x hx => absurd hx List.not_mem_nil) (fun x hx hxV => absurd hxV (hscut x hx)) hp
         rw [hnot] at this; cases this
       have notCov_of_negP : I.negP (proj sys.wk u true s) → covers sys.wk rs.found u = false := by
         intro hneg
@@ -428,23 +398,16 @@ theorem expand_exact2 (hst : Stage2 sys) (hc : Coherent (specSys sys u true) I) 
         | true =>
           exfalso
           exact (hc _).2.mp hneg (Dfs.holdsD_to_global _ _ V _ (as hh))
-      refine ⟨chanInv_exclR hst.1 (fun f hf => ib f (hbm.1 f hf)) (fun f hf => is f (hsm.1 f hf)), ?_, ?_, ?_⟩
+      refine ⟨chanInv_exclR hst.1 (fun f hf => ib f (hbm.1 f hf)) (fun f hf => is f (hsm.1 f hf)), ?_, ?_⟩
       · intro hh
         obtain ⟨h1, h2⟩ := hcov.mp hh
         simp only [proj]
         exact .diff (ab h1) (negD_of h2)
-      · intro hp
+      · intro W hWV hcutW hp
         simp only [proj] at hp
         cases hp with
-        | diff hb hneg => exact hcov.mpr ⟨bb hb, notCov_of_negP hneg⟩
-      · intro hcut hp
-        simp only [proj] at hp
-        have hbc : rb.cut = false := by
-          cases hrb : rb.cut with
-          | false => rfl
-          | true => simp [hrb] at hcut
-        cases hp with
-        | diff hb hneg => exact hcov.mpr ⟨cb hbc hb, notCov_of_negP hneg⟩
+        | diff hb hneg =>
+          exact hcov.mpr ⟨bb W hWV (fun x hx => hcutW x (List.mem_append_left _ hx)) hb, notCov_of_negP hneg⟩
 
 /-- **C06 with wildcards, every schedule.**  An answer without error and without ghost note returns `u`
 only if `u` definitely holds the relation; a `u` that possibly holds it is returned explicitly or through
@@ -457,7 +420,7 @@ theorem lu_exact2 (hst : Stage2 sys) (hc : Coherent (specSys sys u true) I) (roo
   simp only [answerOf] at he hn ⊢
   obtain ⟨hnr, hcl⟩ := List.append_eq_nil_iff.mp hn
   have hclash : clash r.found = false := noteIf_nil hcl
-  obtain ⟨_, hA, hB, _⟩ := expand_exact2 sys limit u I hst hc hexp (.node root) he hnr
+  obtain ⟨_, hA, hB⟩ := expand_exact2 sys limit u I hst hc hexp (.node root) he hnr
   have inUsers : ∀ x, hasK r.found x = true → x ∈ finalOf m := by
     intro x hx
     obtain ⟨f, hf, hfu, hfs⟩ := hasK_iff.mp ((hasK_map_iff hm hclash).mpr hx)
@@ -470,7 +433,8 @@ theorem lu_exact2 (hst : Stage2 sys) (hc : Coherent (specSys sys u true) I) (roo
     cases hD with
     | node hn' => exact hn'
   · intro hp
-    have hh := hB (by simp only [proj]; exact .node hp)
+    have hh := hB [] (fun x hx => absurd hx List.not_mem_nil) (fun x _ hxV => absurd hxV List.not_mem_nil)
+      (by simp only [proj]; exact .node hp)
     rcases covers_imp hh with h | h
     · exact .inl (inUsers u h)
     · exact .inr (inUsers sys.wk h)
